@@ -24,26 +24,30 @@ from mc.ref import c02_gstat as G
 
 PROPERTY = "C02"
 RULE = (
-    "programs: G-stat grammar = 14 hierarchy skeletons (depth <= 3, <= 4 distributed variables; scalar / vector / "
+    "programs: G-stat grammar = 16 hierarchy skeletons (depth <= 3, <= 4 distributed variables; scalar / vector / "
     "degenerate-MVN; Normal, Gamma, InverseGamma, HalfCauchy, Bernoulli, Poisson; weak intermediate vars, Calc and "
-    "TransientCalc) x EVERY flag combination {observed, parameter, neither, both}^nd x per_obs subsets, plus special "
+    "TransientCalc; two skeletons with a SHARED cached intermediate feeding two distributions) x EVERY flag combination {observed, parameter, neither, both}^nd x per_obs subsets, plus special "
     "structures (Dist without variable with hand-set `at`, weak var with a distribution, flagged vars without "
     "distribution, transformed variables via 7 entry points x 3 families, user-supplied nodes for every non-empty "
-    "subset of the three totals x 3 node kinds, hyper-parameters as Value/Var) and DistRegBuilder models. Per program: "
+    "subset of the three totals x 3 scalar node kinds plus NON-SCALAR user nodes (vector Calc on values, pointwise log-lik "
+    "vector of a Dist node, vector and matrix Value constants), hyper-parameters as Value/Var) and DistRegBuilder models. Per program: "
     "walk of the valuation lattice by single assignments on one live model (Euler circuit over 3 values per strong "
-    "variable for canonical programs, star walk otherwise), under auto-update on and off+update(). Distinct outcome = "
+    "variable for canonical programs, star walk otherwise), under auto-update on, off+update(), and off + TARGETED "
+    "update('_model_log_prob'|'_model_log_lik'|'_model_log_prior') (that total is compared, then update() and everything is "
+    "compared). Assignment styles cycle per variable: new jax array, new numpy array, and 'fetch the stored numpy array, "
+    "edit it in place, assign the same object back'. Distinct outcome = "
     "(skeleton, flag pattern, per_obs pattern, decomposable?, walk)."
 )
 ASSUMPTIONS = [
     "lattice: 3 values per strong variable (2 data sets for responses); nothing is claimed between lattice points",
-    "float32 implementation vs float64 scipy reference: tolerance 2e-5 * sum|element-wise log-densities| + 2e-5 (observed noise is reported in extra.max_err_over_scale)",
+    "float32 implementation vs float64 scipy reference: tolerance 4e-6 * sum|element-wise log-densities| + 4e-6; the largest accepted deviation is reported in extra.max_err_over_scale_all_units (2.9e-7 on /repo, i.e. the tolerance is 14x the observed float32 noise)",
     "trusted: scipy densities (Normal, Gamma, InverseGamma, HalfCauchy, Poisson pmf), numpy eigvalsh for the pseudo-determinant; the program's own node functions are shared between model and reference (numpy vs jax.numpy)",
     "transformed variables: closed-form Jacobians for Exp, Softplus(hinge), Scale, and TFP's default event-space bijectors of Gamma / InverseGamma / HalfCauchy (C14 goes deeper)",
     "quick tier: the joint product flags x per_obs is complete for <= 2 distributed variables and for the canonical flags; for 3-4 distributed variables and non-canonical flags 4 per_obs subsets (all, none, two alternating) per flag combination; thorough: the complete joint product",
 ]
 
-REL = 2e-5
-ABS = 2e-5
+REL = 4e-6
+ABS = 4e-6
 TOTALS = ("log_prob", "log_lik", "log_prior")
 
 
@@ -57,7 +61,8 @@ def bounds(tier):
         "lattice_values_per_strong_var": 3,
         "flags": "all 4^nd combinations",
         "per_obs": "all subsets for canonical flags and nd<=2; 4 patterns per non-canonical flag combination for nd>=3" if tier == "quick" else "all subsets for every flag combination",
-        "modes": ["auto_update", "manual update()"],
+        "modes": ["auto_update", "manual update()", "targeted update(_model_log_*) then update() (canonical, special-structure, DistReg and shared-intermediate programs)"],
+        "assignment_styles": ["new jax array", "new numpy array", "in-place edit of the stored numpy array + re-assignment of the same object"],
         "rel_tol": REL,
     }
 
@@ -319,8 +324,6 @@ def run_unit(unit):
             for p in ps:
                 chk.run_program(p, table)
     res.extra["max_err_over_scale"] = chk.max_ratio
-    if chk.max_ratio > REL / 4:
-        raise RuntimeError(f"float32 noise {chk.max_ratio} is too close to the tolerance {REL}")
     res.extra["programs"] = len(unit["labels"])
     return res
 
